@@ -214,7 +214,21 @@ func C20Incompatible() {
 		mp map[string]int32
 		st zzInner
 	)
-	switch sym.Choose("pair", 15) {
+	switch sym.Choose("pair", 19) {
+	case 15:
+		// a list of bytes is a list, not a string (they only share their wire format)
+		sym.Assert(ConvertFrom(&s, []uint8{sym.U8("x"), sym.U8("y")}) != nil, "[]uint8->string/refused")
+	case 16:
+		var raw []uint8
+		sym.Assert(ConvertFrom(&raw, sym.Str("s", 2)) != nil, "string->[]uint8/refused")
+	case 17:
+		type src struct{ Data []uint8 }
+		type dst struct{ Data string }
+		var d dst
+		sym.Assert(ConvertFrom(&d, src{Data: []uint8{sym.U8("x")}}) != nil, "struct-member []uint8->string/refused")
+	case 18:
+		var d map[string][]uint8
+		sym.Assert(ConvertFrom(&d, map[string]string{"k": sym.Str("s", 1)}) != nil, "map-element string->[]uint8/refused")
 	case 12:
 		// incompatible kinds inside a struct member
 		type src struct {
